@@ -147,6 +147,17 @@ class MonoTimer(Timer):
         self.start(duration=duration, start=start)
 
 
+    def start(self, duration=None, start=None):
+        """Starts MonoTimer of duration secs at start time start secs.
+        Same as Timer.start but when starting at the current time that reading
+        also becomes ._last so that a clock retrograded since the last reading
+        is not counted against the new period.
+        """
+        begin = super(MonoTimer, self).start(duration=duration, start=start)
+        if start is None:
+            self._last = begin
+        return begin
+
     @property
     def elapsed(self):
         """elapsed time property getter,
